@@ -17,6 +17,8 @@ import zlib
 import random
 
 from .ops import SimAbort, run_op, exc_obs
+from . import simlock
+from .simlock import SimDeadlock
 
 mon = sys.monitoring
 TOOL = 3
@@ -94,6 +96,7 @@ class Sim:
         self.full_digest = bool(spec.get('full_digest'))
         self.focus_key = None
         self.focus_hits = 0
+        self.lock_yields = 0
         st = spec['strategy']
         self.kind = st['kind']
         if self.kind == 'replay':
@@ -286,6 +289,35 @@ class Sim:
         self._plan_stop(nxt)
         nxt.sem.release()
 
+    # ------------------------------------------------------------------ cooperative blocking on locks
+    def client_of(self, tid):
+        c = self.current
+        if c is not None and c.thread is not None and c.thread.ident == tid:
+            return c
+        return None
+
+    def lock_yield(self, c, owner_tid):
+        """Client c (holding the baton) cannot get a lock: run somebody else, deterministically the owner if it
+        is a client, else the next runnable client; return when c is scheduled again."""
+        self._sync(c)
+        nxt = None
+        for x in self.clients:
+            if x is not c and not x.done and x.thread is not None and x.thread.ident == owner_tid:
+                nxt = x
+        if nxt is None:
+            n = len(self.clients)
+            for i in range(1, n):
+                x = self.clients[(c.cid + i) % n]
+                if not x.done:
+                    nxt = x
+                    break
+        if nxt is None:
+            raise SimDeadlock()
+        self.lock_yields += 1
+        self.switch_sites.append((c.cid, -1, nxt.cid))
+        self._handoff(nxt)
+        c.sem.acquire()
+
     def _overlap(self, c):
         """Rare-condition probe: which in-scope functions are on the stacks of two clients at once."""
         names = set()
@@ -384,6 +416,8 @@ class Sim:
                     obs = 'abort'
                 except SimBudget:
                     obs = 'budget'
+                except SimDeadlock:
+                    obs = 'deadlock'
                 except (MemoryError, RecursionError) as e:
                     obs = 'fault: ' + exc_obs(e)
                 except BaseException as e:  # noqa
@@ -429,6 +463,7 @@ class Sim:
             c.thread = t
             t.start()
         mon.set_events(TOOL, ev)
+        simlock.CURRENT[0] = self
         first = self.clients[0]
         if self.kind == 'replay':
             f = self.spec['strategy'].get('first', 0)
@@ -441,6 +476,7 @@ class Sim:
         self.first = first.cid
         self._handoff(first)
         ok = self.done_sem.acquire(timeout=self.watchdog_s)
+        simlock.CURRENT[0] = None
         mon.set_events(TOOL, 0)
         mon.register_callback(TOOL, ev, None)
         mon.free_tool_id(TOOL)
